@@ -33,7 +33,8 @@ class Contract:
     """requires/ensures/loop invariants/proof hints for one extracted function."""
 
     def __init__(self, requires=None, ensures=None, loops=None, hints=None, ret="r",
-                 decreases=None, props=None, attrs=None, canary=True, opens=None):
+                 decreases=None, props=None, attrs=None, canary=True, opens=None,
+                 safety_props=None):
         self.requires = _clauses(requires)
         self.ensures = _clauses(ensures)
         # loops: {ordinal(1-based): dict(invariant=[clauses], decreases=str, attrs=[str], ensures=[clauses])}
@@ -45,6 +46,8 @@ class Contract:
         self.props = set(props or [])
         self.attrs = attrs or []
         self.canary = canary
+        # properties the function's panic-freedom obligations belong to (default: props)
+        self.safety_props = set(safety_props) if safety_props is not None else None
 
 
 class Tag:
@@ -66,6 +69,7 @@ class UnitFile:
         self.fn_props = {}   # generated fn name -> props
         self.canaries = []   # names of canary fns
         self.skeletons = {}  # fn name -> skeleton hash
+        self.safety_props = {}  # fn name -> props of its panic-freedom obligations
         self._sources = {}
         self.errors = []
 
@@ -157,10 +161,19 @@ class UnitFile:
                            "skeleton": skeleton_hash(it.text)})
         self.skeletons[gname] = skeleton_hash(it.text)
         if kind == "type":
+            if re.search(r"\bstruct\b", text.split("{")[0].split("(")[0]):
+                # R0: private named fields -> pub (visibility has no run-time meaning)
+                text, nf = rw.sub(r"(?m)^(\s+)(?!pub\b)([a-z_][A-Za-z0-9_]*\s*:(?!:))", r"\1pub \2", text)
+                text, nt = rw.sub(r"^((?:pub\s+)?struct\s+\w+(?:<[^>]*>)?\s*\()(?!pub\b)", r"\1pub ", text)
+                text, nv = rw.sub(r"^struct\b", "pub struct", text)
+                if nf + nt + nv:
+                    self.rules_used["R0"] = self.rules_used.get("R0", 0) + nf + nt + nv
             self.emit(text, Tag("repo", fn=gname, repo_file=rel, repo_line=it.line0))
             self._retag_repo(len(text.split("\n")), rel, it.line0, gname, props)
             return
         self.fn_props[gname] = props
+        if contract is not None and contract.safety_props is not None:
+            self.safety_props[gname] = contract.safety_props
         if kind == "block":
             head = sig
             body_text = "{\n" + prefix + text + suffix + "\n}"
@@ -282,20 +295,59 @@ class UnitFile:
         if max(list(c.loops.keys()) + [0]) > ordinal:
             raise ExtractError("%s: contract names loop #%d but body has %d loops"
                                % (gname, max(c.loops.keys()), ordinal))
-        # hints
+        # hints: (anchor, where, text[, nth[, name]]) or dict(anchor=, where=, text=, nth=, name=)
         for h in c.hints:
-            anchor, where, proof = h[0], h[1], h[2]
-            nth = h[3] if len(h) > 3 else 0
+            if isinstance(h, dict):
+                anchor, where, proof = h["anchor"], h.get("where", "before"), h["text"]
+                nth, hname = h.get("nth", 0), h.get("name")
+                hprops = set(h["props"]) if h.get("props") else None
+            else:
+                anchor, where, proof = h[0], h[1], h[2]
+                nth = h[3] if len(h) > 3 else 0
+                hname = h[4] if len(h) > 4 else None
+                hprops = None
             atoks = [t.text for t in code_tokens(tokenize(anchor))]
             hits = [a for a in range(len(toks) - len(atoks) + 1)
                     if all(toks[a + d].text == atoks[d] for d in range(len(atoks)))]
-            if len(hits) <= nth:
+            if nth == "all":
+                sel = hits
+            else:
+                if len(hits) <= nth:
+                    raise ExtractError("%s: hint anchor %r (occurrence %s) not found" % (gname, anchor, nth))
+                sel = [hits[nth]]
+            if not sel:
                 raise ExtractError("%s: hint anchor %r not found" % (gname, anchor))
-            a = hits[nth]
-            off = toks[a].start if where == "before" else toks[a + len(atoks) - 1].end
-            oid = "%s.%s.hint@%s" % (self.unit, gname, re.sub(r"\s+", " ", anchor)[:40])
-            self._inserts.append([("        " + ln, (oid, props)) for ln in proof.strip().split("\n")])
-            edits.append((off, len(self._inserts) - 1, "stmt"))
+            for k_site, a in enumerate(sel):
+                if where == "before":
+                    off = toks[a].start
+                elif where == "after":
+                    off = toks[a + len(atoks) - 1].end
+                elif where == "after_stmt":
+                    depth, j = 0, a
+                    while j < len(toks):
+                        u = toks[j]
+                        if u.kind == "punct":
+                            if u.text in "([{":
+                                depth += 1
+                            elif u.text in ")]}":
+                                depth -= 1
+                            elif u.text == ";" and depth == 0:
+                                break
+                        j += 1
+                    if j >= len(toks):
+                        raise ExtractError("%s: no statement end after hint anchor %r" % (gname, anchor))
+                    off = toks[j].end
+                else:
+                    raise ExtractError("bad hint position %r" % where)
+                label = hname or re.sub(r"\s+", " ", anchor)[:40]
+                if len(sel) > 1:
+                    label = "%s#%d" % (label, k_site + 1)
+                oid = "%s.%s.site[%s]" % (self.unit, gname, label)
+                hp = hprops if hprops is not None else props
+                if hname:
+                    self.clauses.append((oid, hp, re.sub(r"\s+", " ", proof)[:200]))
+                self._inserts.append([("        " + ln, (oid, hp)) for ln in proof.strip().split("\n")])
+                edits.append((off, len(self._inserts) - 1, "stmt"))
         edits.sort(key=lambda e: (e[0], e[1]))
         out, pos = [], 0
         for off, idx, _ in edits:
